@@ -63,6 +63,8 @@ pub enum Leaf {
     /// `body` words that is written with `Option::serialize` (`present`) or `absent_option`, and that the
     /// structure's own `load` passes over with `skip_option`.
     Lazy { c: Content, body: usize, present: bool },
+    /// `c.len` items of a user-defined fixed-size item type (`Triple`, three words: a size that divides no power of two).
+    VecTriple(Content),
 }
 
 #[derive(Clone, Debug, SerdeSerialize, Deserialize, PartialEq, Eq)]
@@ -84,7 +86,7 @@ impl Payload {
     }
 
     pub fn mappable(&self) -> bool {
-        matches!(self.leaf, Leaf::VecU64(_) | Leaf::VecUsize(_) | Leaf::VecPair(_) | Leaf::Bytes(_) | Leaf::Str(_) | Leaf::Raw { .. } | Leaf::Int { .. } | Leaf::OptSel { .. })
+        matches!(self.leaf, Leaf::VecU64(_) | Leaf::VecUsize(_) | Leaf::VecPair(_) | Leaf::VecTriple(_) | Leaf::Bytes(_) | Leaf::Str(_) | Leaf::Raw { .. } | Leaf::Int { .. } | Leaf::OptSel { .. })
     }
 
     /// The mapped view covers only the first part of the structure: a cut in the rest cannot be noticed by it.
@@ -103,6 +105,7 @@ impl Payload {
             Leaf::VecU64(c) => Leaf::VecU64(bump(c, false)),
             Leaf::VecUsize(c) => Leaf::VecUsize(bump(c, false)),
             Leaf::VecPair(c) => Leaf::VecPair(bump(c, false)),
+            Leaf::VecTriple(c) => Leaf::VecTriple(bump(c, false)),
             Leaf::Bytes(c) => Leaf::Bytes(bump(c, true)),
             Leaf::Str(c) => Leaf::Str(bump(c, true)),
             Leaf::Raw { c, .. } => Leaf::Raw { c: bump(c, false), route: 0 },
@@ -143,7 +146,7 @@ pub struct GenCfg {
     pub allow_options: bool,
 }
 
-pub const N_KINDS: u32 = 22;
+pub const N_KINDS: u32 = 23;
 
 impl GenCfg {
     pub fn swarm(rng: &mut Rng, family: Family, max_len: usize) -> GenCfg {
@@ -158,7 +161,7 @@ impl GenCfg {
 }
 
 fn gen_leaf(rng: &mut Rng, cfg: &GenCfg) -> Leaf {
-    let mappable_kinds: [u32; 8] = [3, 4, 5, 6, 7, 8, 9, 20];
+    let mappable_kinds: [u32; 9] = [3, 4, 5, 6, 7, 8, 9, 20, 22];
     loop {
         let kind = match cfg.family {
             Family::All => rng.below(N_KINDS as u64) as u32,
@@ -202,6 +205,7 @@ fn gen_leaf(rng: &mut Rng, cfg: &GenCfg) -> Leaf {
                 Leaf::WmCore { c: gen_content(rng, m / 4), width, ity: rng.below(5) as u8 }
             },
             20 => Leaf::OptSel { c: gen_bits(rng, m * 8), some: rng.chance(4, 5) },
+            22 => Leaf::VecTriple(gen_content(rng, m / 24)),
             21 => Leaf::Lazy { c: gen_content(rng, m / 16), body: gen_len(rng, m / 16), present: rng.chance(3, 4) },
             _ => Leaf::Wm { c: gen_content(rng, m / 4), width: if rng.chance(1, 10) { rng.range_usize(12, 14) } else { rng.range_usize(1, 11) }, ity: rng.below(5) as u8 },
         };
@@ -242,7 +246,7 @@ pub fn gen_large_payload(rng: &mut Rng, words: usize) -> Payload {
     let leaf = match rng.below(9) {
         0 => Leaf::VecU64(c(rng, words)),
         1 | 2 => Leaf::VecPair(c(rng, words)),          // `words` items of two words each
-        3 => Leaf::VecUsize(c(rng, words)),
+        3 => if rng.bool() { Leaf::VecUsize(c(rng, words)) } else { Leaf::VecTriple(c(rng, words / 3 + 1)) },
         4 => { let extra = rng.range_usize(0, 7); Leaf::Bytes(c(rng, 8 * words + extra)) },
         5 => { let less = rng.range_usize(0, 63); Leaf::Raw { c: c(rng, 64 * words - less), route: *rng.pick(&[0u8, 2, 3, 4]) } },
         6 => { let width = gen_width(rng); Leaf::Int { c: c(rng, (64 * words / width).min(4_000_000)), width } },
@@ -277,7 +281,7 @@ impl Leaf {
     fn content(&self) -> Option<&Content> {
         match self {
             Leaf::U64(_) | Leaf::Usize(_) | Leaf::Pair(..) => None,
-            Leaf::VecU64(c) | Leaf::VecUsize(c) | Leaf::VecPair(c) | Leaf::Bytes(c) | Leaf::Str(c) | Leaf::Rank(c) | Leaf::Sel(c) | Leaf::SelZ(c) => Some(c),
+            Leaf::VecU64(c) | Leaf::VecUsize(c) | Leaf::VecPair(c) | Leaf::VecTriple(c) | Leaf::Bytes(c) | Leaf::Str(c) | Leaf::Rank(c) | Leaf::Sel(c) | Leaf::SelZ(c) => Some(c),
             Leaf::OptSel { c, .. } | Leaf::Lazy { c, .. } => Some(c),
             Leaf::Raw { c, .. } | Leaf::Int { c, .. } | Leaf::Bv { c, .. } | Leaf::Sparse { c, .. } | Leaf::Rl { c, .. } | Leaf::WmCore { c, .. } | Leaf::Wm { c, .. } => Some(c),
         }
@@ -287,7 +291,7 @@ impl Leaf {
         let mut l = self.clone();
         match &mut l {
             Leaf::U64(_) | Leaf::Usize(_) | Leaf::Pair(..) => {},
-            Leaf::VecU64(c) | Leaf::VecUsize(c) | Leaf::VecPair(c) | Leaf::Bytes(c) | Leaf::Str(c) | Leaf::Rank(c) | Leaf::Sel(c) | Leaf::SelZ(c) => *c = n,
+            Leaf::VecU64(c) | Leaf::VecUsize(c) | Leaf::VecPair(c) | Leaf::VecTriple(c) | Leaf::Bytes(c) | Leaf::Str(c) | Leaf::Rank(c) | Leaf::Sel(c) | Leaf::SelZ(c) => *c = n,
             Leaf::OptSel { c, .. } | Leaf::Lazy { c, .. } => *c = n,
             Leaf::Raw { c, .. } | Leaf::Int { c, .. } | Leaf::Bv { c, .. } | Leaf::Sparse { c, .. } | Leaf::Rl { c, .. } | Leaf::WmCore { c, .. } | Leaf::Wm { c, .. } => *c = n,
         }
@@ -423,6 +427,14 @@ impl Probe for Vec<usize> {
 }
 impl Probe for Vec<(u64, u64)> {
     fn probe(&self, out: &mut Vec<u64>) { out.push(self.len() as u64); for i in sample_points(self.len()) { out.push(self[i].0); out.push(self[i].1); } }
+}
+/// A fixed-size item type of the library's user: three words.
+#[repr(C)]
+#[derive(Clone, Copy, Default, PartialEq, Eq, Debug, Hash)]
+pub struct Triple(pub u64, pub u64, pub u64);
+impl simple_sds::serialize::Serializable for Triple {}
+impl Probe for Vec<Triple> {
+    fn probe(&self, out: &mut Vec<u64>) { out.push(self.len() as u64); for i in sample_points(self.len()) { out.push(self[i].0); out.push(self[i].1); out.push(self[i].2); } }
 }
 impl Probe for Vec<u8> {
     fn probe(&self, out: &mut Vec<u64>) { out.push(self.len() as u64); for i in sample_points(self.len()) { out.push(self[i] as u64); } }
@@ -716,6 +728,10 @@ impl MapView for Vec<(u64, u64)> {
     type View<'a> = MappedSlice<'a, (u64, u64)>;
     fn compare<'a>(&self, view: &Self::View<'a>) -> Result<(), String> { cmp_mapped_slice("MappedSlice<(u64,u64)>", view, self.as_slice()) }
 }
+impl MapView for Vec<Triple> {
+    type View<'a> = MappedSlice<'a, Triple>;
+    fn compare<'a>(&self, view: &Self::View<'a>) -> Result<(), String> { cmp_mapped_slice("MappedSlice<Triple>", view, self.as_slice()) }
+}
 impl MapView for Vec<u8> {
     type View<'a> = MappedBytes<'a>;
     fn compare<'a>(&self, view: &Self::View<'a>) -> Result<(), String> {
@@ -753,6 +769,10 @@ impl MapView for RawVector {
         for w in [1usize, 7, 31, 58, 59, 63, 64] { if self.len() >= w { for i in sample_points(self.len() - w + 1) { if unsafe { view.int(i, w) != self.int(i, w) } { return Err(format!("RawVectorMapper::int({}, {})", i, w)); } } } }
         let words: &MappedSlice<u64> = view.as_ref();
         cmp_slices("RawVectorMapper words", words.as_ref(), self.as_ref())?;
+        // The nested view is a view like any other: it ends where the structure that contains it ends.
+        if words.map_offset() + words.map_len() != view.map_offset() + view.map_len() || words.map_offset() < view.map_offset() {
+            return Err(format!("RawVectorMapper: the nested word slice covers elements {}..{}, the vector {}..{}", words.map_offset(), words.map_offset() + words.map_len(), view.map_offset(), view.map_offset() + view.map_len()));
+        }
         for i in sample_points(self.len()) { if view.bit(i) != self.bit(i) { return Err(format!("RawVectorMapper::bit({})", i)); } }
         if self.len() >= 13 { for i in sample_points(self.len() - 12) { if unsafe { view.int(i, 13) != self.int(i, 13) } { return Err(format!("RawVectorMapper::int({}, 13)", i)); } } }
         Ok(())
@@ -791,6 +811,10 @@ impl MapView for IntVector {
         let raw: &RawVectorMapper = view.as_ref();
         let own: &RawVector = self.as_ref();
         if raw.len() != own.len() { return Err("IntVectorMapper raw len".into()); }
+        if raw.map_offset() + raw.map_len() != view.map_offset() + view.map_len() || raw.map_offset() < view.map_offset() {
+            return Err(format!("IntVectorMapper: the nested raw vector covers elements {}..{}, the vector {}..{}", raw.map_offset(), raw.map_offset() + raw.map_len(), view.map_offset(), view.map_offset() + view.map_len()));
+        }
+        own.compare(raw)?;
         Ok(())
     }
 }
@@ -1102,6 +1126,7 @@ impl Payload {
             Leaf::VecU64(c) => lazy(p, || c.words()),
             Leaf::VecUsize(c) => lazy(p, || c.words().into_iter().map(|w| w as usize).collect::<Vec<usize>>()),
             Leaf::VecPair(c) => lazy(p, || { let w = c.words_n(2 * c.len); (0..c.len).map(|i| (w[2 * i], w[2 * i + 1])).collect::<Vec<(u64, u64)>>() }),
+            Leaf::VecTriple(c) => lazy(p, || { let w = c.words_n(3 * c.len); (0..c.len).map(|i| Triple(w[3 * i], w[3 * i + 1], w[3 * i + 2])).collect::<Vec<Triple>>() }),
             Leaf::Bytes(c) => lazy(p, || c.bytes()),
             Leaf::Str(c) => lazy(p, || c.string()),
             Leaf::Raw { c, route } => lazy(p, || build_raw(c, *route)),
